@@ -66,39 +66,7 @@ def run(ctx):
                           "%s encodes %s with is_table != false: a user stream name is mapped into the table namespace" % (short(f.name), args),
                           f.loc(t["sp"]), fn=f.name)
     ctx.floor(R1, "streamname::encode call sites", n, 9)
-    # table names are validated as TABLE names (the marker character counts against the 31-unit limit)
-    tv = prog.fn("msi::internal::table::Table::is_valid_name")
-    tcs = [args for b, nme, args, t in symcalls(prog, tv) if nme == SN + "is_valid"]
-    ctx.check(len(tcs) == 1 and tcs[0] == ["&*p1", "c:1"], R1, "Table::is_valid_name validates with is_table = true", str(tcs), "Table::is_valid_name calls streamname::is_valid with %s: a table "
-              "name of maximal length passes validation and is refused by the container only after the catalog was written" % tcs, tv.loc(), fn=tv.name, key=R1 + "|table-flag")
-    f = prog.fn(SN + "is_valid")
-    S = Sym(prog, f)
-    cs = symcalls(prog, f, S)
-    sw = [c for c in cs if c[1].endswith("<impl str>::starts_with")]
-    em = [c for c in cs if c[1].endswith("<impl str>::is_empty")]
-    en = [c for c in cs if c[1] == SN + "encode"]
-    cmpc = [S.val(o) for bl in f.blocks if not bl["cleanup"] for s in bl["stmts"] if s["rhs"]["rv"] == "bin" and s["rhs"]["op"] in ("Le", "Lt") for o in s["rhs"]["ops"]]
-    from ..lib import exceeds_facts
-    lim = None
-    for bl in f.blocks:
-        if bl["cleanup"]:
-            continue
-        for s_ in bl["stmts"]:
-            r_ = s_["rhs"]
-            if r_["rv"] == "bin" and r_["op"] in ("Le", "Lt", "Gt", "Ge"):
-                a_, b_ = S.val(r_["ops"][0]), S.val(r_["ops"][1])
-                if "count(" in a_ and re.fullmatch(r"c:\d+", b_):
-                    lim = {"Le": int(b_[2:]), "Lt": int(b_[2:]) - 1, "Gt": int(b_[2:]), "Ge": int(b_[2:]) - 1}[r_["op"]]
-                elif "count(" in b_ and re.fullmatch(r"c:\d+", a_):
-                    lim = {"Ge": int(a_[2:]), "Gt": int(a_[2:]) - 1, "Lt": int(a_[2:]), "Le": int(a_[2:]) - 1}[r_["op"]]
-    ctx.check(lim == 31, R1, "is_valid: at most 31 UTF-16 units", str(lim), "is_valid admits encoded names of up to %s UTF-16 units; a compound-file entry name holds 31" % lim, f.loc(), fn=f.name, key=R1 + "|limit31")
-    ctx.check(len(em) == 1 and len(sw) == 1 and "c:18496" in sw[0][2][1] and len(en) == 1 and en[0][2] == ["&*p1", "p2"] and ("c:31" in cmpc or "c:32" in cmpc), R1,
-              "is_valid: non-empty, no leading table marker for streams, encoded length <= 31", "",
-              "is_valid lost a clause: is_empty %d, starts_with %s, encode %s, comparison operands %s" % (len(em), [c[2] for c in sw], [c[2] for c in en], cmpc),
-              f.loc(), fn=f.name)
-    if len(sw) == 1:
-        ctx.check(has_fact(S, sw[0][0], r"^p2$", False) or any(e == "p2" and tr is False for (e, tr, g) in S.bool_facts_at(sw[0][0])), R1,
-                  "is_valid: marker test applies to streams only", "", "the table-marker test is not conditioned on !is_table", f.loc(), fn=f.name)
+    name_limit(ctx, R1)
 
     R2 = "NAME-2"
     ctx.rule(R2, "Streams::next skips non-stream entries, every *_STREAM_NAME constant of streamname.rs, and every entry whose decoded name is a table")
@@ -150,6 +118,17 @@ def run(ctx):
                     ok = True
     ctx.check(ok, R2, "listing skips table streams", "Some(name) only under !is_table", "Streams::next yields a name without testing decode()'s is_table result", f.loc(), fn=f.name)
 
+    # the listing walks the root storage only (not recursively): entries inside sub-storages are not package streams and no other stream API can reach them
+    f = prog.fn(P + "streams")
+    S = Sym(prog, f)
+    src = [c for c in symcalls(prog, f, S) if c[1].startswith("cfb::CompoundFile::<F>::")]
+    ok = bool(src) and all(c[1].endswith(("::read_root_storage",)) or (c[1].endswith("::read_storage") and re.search(r"s:'/?'", c[2][1] if len(c[2]) > 1 else "")) for c in src)
+    nw = [c for c in symcalls(prog, f, S) if c[1].endswith("Streams::<'a, F>::new")]
+    ok = ok and len(nw) == 1 and "read_root_storage" in nw[0][2][0] or (ok and len(nw) == 1 and "read_storage" in nw[0][2][0])
+    ctx.check(ok, R2, "streams() lists the root storage only", str([short(c[1]) for c in src]),
+              "Package::streams obtains its entries from %s: only the direct children of the root storage are package streams; a recursive walk lists streams of sub-storages "
+              "(embedded transforms) that has_stream / read_stream / remove_stream cannot address" % [short(c[1]) for c in src], f.loc(), fn=f.name, key=R2 + "|root-only")
+
     R3 = "NAME-3"
     ctx.rule(R3, "remove_digital_signature removes only the two signature streams, each guarded by is_stream on the same constant; has_digital_signature "
                  "tests the DigitalSignature constant")
@@ -182,6 +161,50 @@ def run(ctx):
     ist = [c for c in cs if c[1] == "cfb::CompoundFile::<F>::is_stream"]
     ctx.check(len(ist) == 1 and ist[0][2][1] == "s:%r" % consts["DIGITAL_SIGNATURE_STREAM_NAME"]["lit"], R3, "has_digital_signature", "",
               "has_digital_signature tests %s" % [c[2] for c in ist], f.loc(), fn=f.name)
+
+
+def name_limit(ctx, R1="NAME-1"):
+    """the 31-unit limit of container entry names, for streams and (with the marker character) tables"""
+    prog = ctx.prog
+    # table names are validated as TABLE names (the marker character counts against the 31-unit limit)
+    tv = prog.fn("msi::internal::table::Table::is_valid_name")
+    tcs = [args for b, nme, args, t in symcalls(prog, tv) if nme == SN + "is_valid"]
+    ctx.check(len(tcs) == 1 and tcs[0] == ["&*p1", "c:1"], R1, "Table::is_valid_name validates with is_table = true", str(tcs), "Table::is_valid_name calls streamname::is_valid with %s: a table "
+              "name of maximal length passes validation and is refused by the container only after the catalog was written" % tcs, tv.loc(), fn=tv.name, key=R1 + "|table-flag")
+    f = prog.fn(SN + "is_valid")
+    S = Sym(prog, f)
+    cs = symcalls(prog, f, S)
+    sw = [c for c in cs if c[1].endswith("<impl str>::starts_with")]
+    em = [c for c in cs if c[1].endswith("<impl str>::is_empty")]
+    en = [c for c in cs if c[1] == SN + "encode"]
+    cmpc = [S.val(o) for bl in f.blocks if not bl["cleanup"] for s in bl["stmts"] if s["rhs"]["rv"] == "bin" and s["rhs"]["op"] in ("Le", "Lt") for o in s["rhs"]["ops"]]
+    from ..lib import exceeds_facts
+    lim, counted = None, None
+    for bl in f.blocks:
+        if bl["cleanup"]:
+            continue
+        for s_ in bl["stmts"]:
+            r_ = s_["rhs"]
+            if r_["rv"] == "bin" and r_["op"] in ("Le", "Lt", "Gt", "Ge"):
+                a_, b_ = S.val(r_["ops"][0]), S.val(r_["ops"][1])
+                if "count(" in a_ and re.fullmatch(r"c:\d+", b_):
+                    counted = a_
+                    lim = {"Le": int(b_[2:]), "Lt": int(b_[2:]) - 1, "Gt": int(b_[2:]), "Ge": int(b_[2:]) - 1}[r_["op"]]
+                elif "count(" in b_ and re.fullmatch(r"c:\d+", a_):
+                    counted = b_
+                    lim = {"Ge": int(a_[2:]), "Gt": int(a_[2:]) - 1, "Lt": int(a_[2:]), "Le": int(a_[2:]) - 1}[r_["op"]]
+    ctx.check(lim == 31, R1, "is_valid: at most 31 UTF-16 units", str(lim), "is_valid admits encoded names of up to %s UTF-16 units; a compound-file entry name holds 31" % lim, f.loc(), fn=f.name, key=R1 + "|limit31")
+    ctx.check(counted is not None and ("encode_utf16(" in counted or "len_utf16(" in counted) and "streamname::encode" in counted, R1, "is_valid: the limit counts UTF-16 units of the encoded name", str(counted)[:120],
+              "is_valid compares %s with the limit: a compound-file entry name holds 31 UTF-16 code units, so the units of the ENCODED name must be counted (a character outside "
+              "the BMP is two units; counting characters or bytes admits names the container cannot store)" % counted, f.loc(), fn=f.name, key=R1 + "|utf16-units")
+    ctx.check(len(em) == 1 and len(sw) == 1 and "c:18496" in sw[0][2][1] and len(en) == 1 and en[0][2] == ["&*p1", "p2"] and ("c:31" in cmpc or "c:32" in cmpc), R1,
+              "is_valid: non-empty, no leading table marker for streams, encoded length <= 31", "",
+              "is_valid lost a clause: is_empty %d, starts_with %s, encode %s, comparison operands %s" % (len(em), [c[2] for c in sw], [c[2] for c in en], cmpc),
+              f.loc(), fn=f.name)
+    if len(sw) == 1:
+        ctx.check(has_fact(S, sw[0][0], r"^p2$", False) or any(e == "p2" and tr is False for (e, tr, g) in S.bool_facts_at(sw[0][0])), R1,
+                  "is_valid: marker test applies to streams only", "", "the table-marker test is not conditioned on !is_table", f.loc(), fn=f.name)
+
 
 
 def name4(ctx, rule="NAME-4"):
